@@ -4,7 +4,8 @@ package harness
 // Drives the REAL exchange MsgServer on a real app with the real hold and bank keepers:
 // order creation, cancellation, market settlement (with partial fills), user fills,
 // commitments (commit / release / settle), payments (create / accept / reject / cancel /
-// retarget), fee changes, market closure, plain bank sends, and exchange InitGenesis.
+// retarget), fee changes, market closure, plain bank sends, staking delegations (the chain's bond
+// denom is one of the traded denoms), and exchange InitGenesis.
 // After every op `dump` prints every order / commitment / payment (Iterate*), every account's
 // holds (HoldKeeper.GetHoldCoins) and balances.
 
@@ -20,6 +21,8 @@ import (
 	sdk "github.com/cosmos/cosmos-sdk/types"
 	bankkeeper "github.com/cosmos/cosmos-sdk/x/bank/keeper"
 	banktypes "github.com/cosmos/cosmos-sdk/x/bank/types"
+	stakingkeeper "github.com/cosmos/cosmos-sdk/x/staking/keeper"
+	stakingtypes "github.com/cosmos/cosmos-sdk/x/staking/types"
 
 	"github.com/provenance-io/provenance/app"
 	"github.com/provenance-io/provenance/x/exchange"
@@ -34,6 +37,10 @@ func init() {
 var exhUsers = []string{"A", "B", "C", "D"}
 var exhDenoms = []string{"apple", "fig", "usd"}
 
+// exhBond is the bond denom of the harness chain: a denom that is also traded, used as a price and
+// as a fee denom, so that funds on hold and funds wanted for a delegation are the same coins.
+const exhBond = "fig"
+
 type exhEnv struct {
 	t    *testing.T
 	app  *app.App
@@ -43,6 +50,8 @@ type exhEnv struct {
 	name map[string]string
 	srv  exchange.MsgServer
 	bank banktypes.MsgServer
+	stk  stakingtypes.MsgServer
+	val  string
 	// why: finer reason of the last error, for the distribution counters only
 	why string
 }
@@ -96,6 +105,21 @@ func exhSetup(t *testing.T) *exhEnv {
 			e.addr[fmt.Sprintf("mkt%d", m.MarketId)] = maddr
 			e.name[maddr.String()] = fmt.Sprintf("mkt%d", m.MarketId)
 		}
+		// staking: the chain's bond denom is exhBond; delegations go to the genesis validator
+		sp, err := a.StakingKeeper.GetParams(ctx)
+		if err != nil {
+			t.Fatalf("staking params: %v", err)
+		}
+		sp.BondDenom = exhBond
+		if err := a.StakingKeeper.SetParams(ctx, sp); err != nil {
+			t.Fatalf("staking params: %v", err)
+		}
+		vals, err := a.StakingKeeper.GetAllValidators(ctx)
+		if err != nil || len(vals) == 0 {
+			t.Fatalf("validators: %v", err)
+		}
+		e.val = vals[0].OperatorAddress
+		e.stk = stakingkeeper.NewMsgServerImpl(a.StakingKeeper)
 		e.base = ctx
 		e.srv = exchangekeeper.NewMsgServer(a.ExchangeKeeper)
 		e.bank = bankkeeper.NewMsgServerImpl(a.BankKeeper)
@@ -862,6 +886,15 @@ func (e *exhEnv) exec(op string) (string, string) {
 	case "send":
 		msg := &banktypes.MsgSend{FromAddress: e.bech(exhKV(ws, "from")), ToAddress: e.bech(exhKV(ws, "to")), Amount: exhParseCoins(exhKV(ws, "coins"))}
 		return op, e.run(kind, msg, func(ctx sdk.Context) error { _, err := e.bank.Send(ctx, msg); return err })
+	case "delegate":
+		// staking MsgDelegate -> Keeper.Delegate -> bank DelegateCoinsFromAccountToModule (the one bank
+		// outflow of a user account that does not go through SendCoins)
+		amt, ok := exhParseCoin(exhKV(ws, "amt"))
+		if !ok {
+			return op, "bad-op"
+		}
+		msg := &stakingtypes.MsgDelegate{DelegatorAddress: e.bech(exhKV(ws, "from")), ValidatorAddress: e.val, Amount: amt}
+		return op, e.run(kind, msg, func(ctx sdk.Context) error { _, err := e.stk.Delegate(ctx, msg); return err })
 	}
 	return op, "bad-op"
 }
@@ -1722,6 +1755,55 @@ func (g *exhGen) genSend() string {
 	return fmt.Sprintf("send from=%s to=%s coins=%s", from, to, exhCoinsStr(coins))
 }
 
+// genDelegate: a staking delegation by a user. Mostly of the bond denom and mostly by an account
+// that has bond-denom funds on hold; the amount is drawn around the two boundaries that matter:
+// the un-held balance (balance - hold: the most that may leave) and the balance.
+func (g *exhGen) genDelegate() string {
+	from := g.user()
+	if g.rng.Chance(75) {
+		var held []string
+		for _, u := range exhUsers {
+			if h, err := g.e.app.HoldKeeper.GetHoldCoin(g.e.ctx, g.e.addr[u], exhBond); err == nil && h.Amount.IsPositive() {
+				held = append(held, u)
+			}
+		}
+		if len(held) > 0 {
+			from = Pick(g.rng, held)
+		}
+	}
+	denom := exhBond
+	if g.rng.Chance(6) {
+		denom = Pick(g.rng, exhDenoms)
+	}
+	bal := g.e.app.BankKeeper.GetBalance(g.e.ctx, g.e.addr[from], denom).Amount
+	free := g.e.app.BankKeeper.SpendableCoins(g.e.ctx, g.e.addr[from]).AmountOf(denom)
+	amt := sdkmath.NewInt(int64(1 + g.rng.Intn(40)))
+	zone := "small"
+	switch x := g.rng.Intn(100); {
+	case x < 45 && bal.GT(free) && bal.Sub(free).IsInt64():
+		// more than the un-held balance, no more than the balance
+		amt, zone = free.AddRaw(1+int64(g.rng.Intn(int(exhMinInt64(bal.Sub(free).Int64(), 1<<30))))), "held"
+	case x < 62:
+		amt, zone = free.AddRaw(int64(g.rng.Intn(3)-1)), "free-edge"
+	case x < 70:
+		amt, zone = bal.AddRaw(int64(g.rng.Intn(3)-1)), "bal-edge"
+	case x < 73:
+		amt, zone = sdkmath.ZeroInt(), "zero"
+	}
+	if amt.IsNegative() {
+		amt = sdkmath.ZeroInt()
+	}
+	g.out.Count("delegate-amt:" + zone)
+	return fmt.Sprintf("delegate from=%s amt=%s%s", from, amt, denom)
+}
+
+func exhMinInt64(a, b int64) int64 {
+	if a < b {
+		return a
+	}
+	return b
+}
+
 // genMarketChange rewrites one aspect of a market line.
 func (g *exhGen) genMarketChange() string {
 	id := uint32(1 + g.rng.Intn(2))
@@ -1924,12 +2006,18 @@ func driveExhold(t *testing.T, rng *RNG, n int, out *Out) {
 			case k < 93:
 				op = g.genPaymentOp(Pick(rng, []int{0, 0, 0, 1, 2, 2, 2, 3, 3, 4, 4}))
 			case k < 96:
-				op = g.genSend()
+				if rng.Chance(55) {
+					op = g.genDelegate()
+				} else {
+					op = g.genSend()
+				}
 			case k < 98:
 				op = g.genMarketChange()
 			default:
 				if s > 8 {
 					op = fmt.Sprintf("close m=%d", 1+rng.Intn(2))
+				} else if rng.Chance(60) {
+					op = g.genDelegate()
 				} else {
 					op = g.genSend()
 				}
